@@ -12,6 +12,14 @@ JSONWizardError, str(e) does not raise, and (class_name, field_name) is the inne
 on the path to the mutation, as computed by an independent Python locator that knows only the class
 definitions and the path of the mutation.  Correspondence: the same loads on the Gallina model
 (generated code, specification, Coq locator).
+Call histories (coq/model/V1ErrHist.v; runner harness/impl/c14x.py): the malformed stream is run
+again AFTER systematically generated prefixes — each nested class not loaded / loaded alone by the
+default engine / bound to v1 and loaded alone / given a non-v1 Meta of its own, another root (v1
+recursive, v1 recursive=False, default engine) used first, the root itself used early, in both
+orders — x Meta.recursive in {True, False} x nesting depth 1..3 x container position.  Direct
+predicate: the outcome (library error, str(e) renders, kind, class_name, field_name, obj, missing
+names) equals that of the same load in a pristine interpreter and names the innermost frame of the
+independent locator; correspondence: engine and outcome of every operation vs. the history machine.
 """
 import json, base64, datetime, copy, os
 from props import c02gen as G
@@ -22,12 +30,15 @@ META = {
     'id': 'C14',
     'title': 'v1 load failures are library errors that render and name the class and field',
     'level': 'proof',
-    'technique': ('Coq proof (induction on nesting budget and on the type grammar) on a hand-written Gallina model of the '
-                  'generated dataclass function, re_raise and the once-only error setters + differential correspondence '
-                  'with the implementation on a malformed-document stream'),
+    'technique': ('Coq proof (induction on nesting budget and on the type grammar; invariant over call histories) on a '
+                  'hand-written Gallina model of the generated dataclass function, re_raise, the once-only error setters and '
+                  'the function table / Meta state shared by both engines + differential correspondence with the '
+                  'implementation on a malformed-document stream, also after systematically generated call histories'),
     'design_ref': 'DESIGN.md section 4 C14',
     'theorems': ['C14_library_error', 'C14_library_error_code_partial', 'C14_setters_once', 'C14_innermost_partial',
-                 'C14_refuted_F24', 'C14_refuted_F50'],
+                 'C14_refuted_F24', 'C14_refuted_F50',
+                 'C14_history_independent', 'C14_hist_library_error', 'C14_hist_innermost_partial',
+                 'C14_hist_engine_first_use', 'C14_shortcut_resolver_refuted'],
     'tables': [],
     'level_text': ('Proved in Coq for ALL class tables / documents / budgets: a failing load of a known class is a '
                    'JSONWizardError-derived error; and for dict-shaped documents in which every dataclass-typed position '
@@ -35,17 +46,32 @@ META = {
                    '(once-only setters) equals the innermost (class, field) found top-down by an independent locator — '
                    'through list / dict / tuple / Optional / NamedTuple positions to any depth. '
                    'Outside that shape the statement is refuted (F24); below a TypedDict the inner attribution is lost (F50, '
-                   'refuted). Message rendering (str(e)) is tested on every failing load, not proved.'),
+                   'refuted). Over ALL call histories (any sequence of LoadMeta(v1, recursive).bind_to and fromdict on any '
+                   'classes, either engine, the default engine an arbitrary function): a load executed by a v1-compiled '
+                   'function computes exactly what it computes in the pristine state, so both statements hold after every '
+                   'history; which engine executes a load is decided by the Meta at the FIRST load of the class. With a nested '
+                   'position that re-uses the shared table entry instead of generating (the shortcut resolver) the statements '
+                   'are refuted. Message rendering (str(e)) is tested on every failing load, not proved.'),
     'level_note': ('Trusted: Coq kernel; the model of the statement skeleton of the generated dataclass function '
                    '(v1/loaders.py:1092-1288), re_raise (1340-1372) and errors.py setters; leaf conversions as an oracle whose '
-                   'failures are ordinary exceptions (hypothesis, audited on every run); the harness.'),
+                   'failures are ordinary exceptions (hypothesis, audited on every run); the model of fromdict / '
+                   'CLASS_TO_LOAD_FUNC / _META (loader_selection.py:11-33, bases_meta.py:213-221) and of what a nested dataclass '
+                   'position of a v1 function calls (v1/loaders.py:709-713, 811-814: always a freshly generated function), '
+                   're-validated on every run (engine and outcome of every operation of every generated history); the harness.'),
     'rule': ('class models nested to depth 3 through direct fields, list, dict values, Optional, fixed tuples, NamedTuple '
              'fields, TypedDict keys, tagged Unions; every v1_key_case (as-is, CAMEL, PASCAL, KEBAB, SNAKE, AUTO); one '
              'well-typed document each; single mutations: junk values at a sample of positions (22 per model quick, 30 '
              'thorough; 5 resp. all junk values), wrong arity, every key re-spelled / removed, an extra key. '
-             'Non-trivial: the mutation lies inside a nested class (depth >= 2); distinct = distinct (model, path, mutation).'),
+             'Non-trivial: the mutation lies inside a nested class (depth >= 2); distinct = distinct (model, path, mutation). '
+             'Histories: 5 (quick) / 13 (thorough) further models (depth 1..3, 13 container positions in rotation, as-is keys); '
+             'per model up to 60 / 100 prefixes (all single operations, sampled combinations and orders) x recursive in '
+             '{True, False} x ~25-45 mutated documents; non-trivial there: non-empty prefix and mutation at depth >= 2.'),
     'trusted_base': ['message renderers (errors.py message properties, safe_dumps) are exercised on every failing load but not modelled',
-                     'tagged Unions of dataclasses are not in the Gallina model: those models run the direct predicates only'],
+                     'tagged Unions of dataclasses are not in the Gallina model: those models run the direct predicates only',
+                     'history machine: Meta = (v1, recursive) only; key case / alias tables of nested classes are not part of the '
+                     'state (F10, property C07): history models use as-is keys',
+                     'the default engine is abstract in the history theorems; loads executed by a default-engine function are '
+                     'compared by engine only'],
     'assumptions': ['JSON documents with string keys', 'strings in the malformed stream are ASCII (the model iterates bytes)',
                     'attribution is claimed for the ParseError family (class and field) and for '
                     'MissingFields (class and missing names); MissingFields.field_name is not claimed (plain attribute, outermost)'],
@@ -255,13 +281,13 @@ def leafy_type(r, mb):
     return l
 
 
-def nest_ctx(r, t, mb, allow_union=None):
+def nest_ctx(r, t, mb, allow_union=None, kind=None):
     """put a dataclass reference into a (possibly helper-compiled) position"""
     kinds = ['id', 'id', 'list', 'dictv', 'opt', 'tup', 'optlist', 'listlist',
              'nt', 'ntopt', 'ntlist', 'td', 'tdo', 'tdlist']
     if allow_union is not None:
         kinds += ['tagu', 'tagulist']
-    c = r.choice(kinds)
+    c = kind or r.choice(kinds)
     if c == 'list':
         return seq('list', t)
     if c == 'dictv':
@@ -555,12 +581,8 @@ def run(ctx):
                 ctx.hist('outcome', out['err'])
                 bad = check_error(out, exp)
                 if bad:
-                    reg = (exp or {}).get('region') or (None if shaped else 'F24')
-                    if reg == 'F24' and not (out.get('kind') == 'P' and out.get('cls') in
-                                             ([exp['f24_cls']] if exp and exp.get('f24_cls') else [c['name'] for c in m['classes']])):
-                        reg = None        # F24 covers only a ParseError naming the class being built: kind and class are checked
-                    if reg and reg not in RESOLVED and ctx.is_open_region(REGION_ID[reg]) and out.get('lib') and out.get('renders'):
-                        ctx.hist('known_region', reg)
+                    if excused(ctx, out, exp, shaped, m):
+                        ctx.hist('known_region', excused(ctx, out, exp, shaped, m))
                     else:
                         ctx.violation('%s (%s %s at %s, key case %s)' % (bad, kind, json.dumps(what)[:60], json.dumps(pos['path']), m.get('key_case')), rp)
             # ---- correspondence
@@ -587,6 +609,20 @@ def run(ctx):
                         'first_mutation': {'kind': plan[0][0], 'path': plan[0][1]['path'], 'what': plan[0][2], 'expect': plan[0][3],
                                            'impl': {k: v for k, v in res['docs'][1].items() if k in ('err', 'lib', 'cls', 'fld', 'renders')}}})
 
+    # ---- call histories: shared function table, Meta bindings, recursive=False (V1ErrHist.v)
+    run_histories(ctx)
+
+
+def excused(ctx, out, exp, shaped, m):
+    """a failing direct predicate inside a listed open region -> the region's name, else None"""
+    reg = (exp or {}).get('region') or (None if shaped else 'F24')
+    if reg == 'F24' and not (out.get('kind') == 'P' and out.get('cls') in
+                             ([exp['f24_cls']] if exp and exp.get('f24_cls') else [c['name'] for c in m['classes']])):
+        reg = None        # F24 covers only a ParseError naming the class being built: kind and class are checked
+    if reg and reg not in RESOLVED and ctx.is_open_region(REGION_ID[reg]) and out.get('lib') and out.get('renders'):
+        return reg
+    return None
+
 
 def check_error(out, exp):
     """direct predicate on a failing load; None if it holds"""
@@ -610,7 +646,429 @@ def check_error(out, exp):
         exp.get('names'))
 
 
+# ====================================================================================== histories
+# Region: what was loaded BEFORE (stand-alone loads of nested classes by either engine, loads under
+# another root, a root used early / by the default engine) x Meta.recursive x nesting depth 1..3 x
+# container position.  Model: coq/model/V1ErrHist.v.  Direct predicate: the failing v1 load after the
+# history reports (library error, str(e) renders, kind, class_name, field_name, obj, missing names)
+# exactly as the same load in a PRISTINE interpreter, and names the innermost frame of the
+# independent locator.
+HIST_IMPORTS = C2.IMPORTS + ['V1ErrHist', 'V1ErrShow']
+HIST_POS = ['id', 'list', 'dictv', 'opt', 'tup', 'optlist', 'listlist', 'nt', 'ntlist', 'ntopt', 'td', 'tdlist', 'tdo']
+V1R = {'v1': True, 'recursive': True}
+V1N = {'v1': True, 'recursive': False}
+
+
+def strip_opt(t):
+    while t['k'] == 'opt':
+        t = t['t']
+    return t
+
+
+def build_hist_models(ctx):
+    """-> list of dict(mb, depth, nested=[class indices, outermost first], other=class index)"""
+    r = ctx.sub_rng('hist-models')
+    n = 5 if ctx.tier == 'quick' else 13
+    off = r.randrange(len(HIST_POS))
+    out = []
+    for hm in range(n):
+        mb = C2.MB(200 + hm)
+        depth = 1 if hm % 5 == 4 else 2 if hm % 5 == 1 else 3
+        mb.cls([])           # root, index 0
+
+        def fields(k, extra):
+            fs = [['alpha', leaf('int')]] + [[G.FIELD_NAMES[j + 1], leafy_type(r, mb)] for j in range(k)] + extra
+            return fs
+        k1, k2 = HIST_POS[(off + 2 * hm) % len(HIST_POS)], HIST_POS[(off + 2 * hm + 1 + hm // len(HIST_POS)) % len(HIST_POS)]
+        nested = []
+        if depth >= 2:
+            inner = mb.cls(fields(r.choice([0, 1]), []), name='Inner%dD' % hm)
+            mb.m['classes'][inner]['fields'].append({'name': 'note', 'ty': leaf('str'), 'default': 'str0'})
+            top = inner
+            nested = [inner]
+            if depth == 3:
+                top = mb.cls(fields(r.choice([0, 1]), [['my_dd', nest_ctx(r, data(inner), mb, kind=k2)]]), name='Mid%dC' % hm)
+                nested = [top, inner]
+            rf = fields(r.choice([0, 1]), [['the_cc', nest_ctx(r, data(top), mb, kind=k1)]])
+            other = mb.cls([('mid_x', data(top)), ('opt_inn', opt(data(inner)), 'none')], name='Other%dR' % hm)
+        else:
+            rf = fields(2, [])
+            other = mb.cls([('alpha', leaf('int'))], name='Other%dR' % hm)
+        mb.m['classes'][0]['fields'] = [{'name': a, 'ty': b, 'default': None} for a, b in rf] + \
+                                       [{'name': 'opt_num', 'ty': leaf('int'), 'default': 'int0'}]
+        mb.m['classes'][0]['name'] = 'Root%dB' % hm
+        mb.m['hist_pos'] = [k1, k2][:max(0, depth - 1)]
+        out.append({'mb': mb, 'depth': depth, 'nested': nested, 'other': other})
+    return out
+
+
+def frame_path(ps, pos):
+    """path of the VALUE of the field the innermost frame of `pos` names"""
+    best = None
+    for q in ps:
+        if q['frames'] == pos['frames'] and q['path'] == pos['path'][:len(q['path'])]:
+            if best is None or len(q['path']) < len(best):
+                best = q['path']
+    return best
+
+
+def hist_plan(ctx, hmod, r):
+    """good document, stand-alone documents of the nested classes and of the other root, mutated documents"""
+    mb, depth = hmod['mb'], hmod['depth']
+    m = mb.m
+    doc = ps = None
+    for attempt in range(60):
+        cand = ascii_tree(C2.gen_inst(ctx.sub_rng('hist-inst', mb.mi, attempt), 0, m))
+        d = dump_doc(cand, data(0), m, ctx.sub_rng('hist-keys', mb.mi, attempt))
+        q = []
+        positions(data(0), d, m, [], [], q, 0)
+        subs = {}
+        for x in q:
+            t = strip_opt(x['ty'])
+            if t['k'] == 'data' and x['path'] and node_at(d, x['path'])[0] == 'D':
+                subs.setdefault(t['c'], node_at(d, x['path']))
+        if max(x['depth'] for x in q) >= depth and all(c in subs for c in hmod['nested']):
+            doc, ps = d, q
+            break
+    if doc is None:
+        return None
+    alone = {}
+    for c in hmod['nested']:
+        bad = copy.deepcopy(subs[c])
+        for kv in bad[2]:
+            if kv[0] == ['S', 'alpha']:
+                kv[1] = ['S', 'junk']
+        alone[c] = {'good': subs[c], 'bad': bad}
+    if hmod['nested']:
+        odoc = ['D', None, [[['S', 'mid_x'], subs[hmod['nested'][0]]]]]
+    else:
+        odoc = ['D', None, [[['S', 'alpha'], ['I', '3']]]]
+    plan = []
+
+    def junk_at(pos, junk):
+        plan.append(('junk', pos, junk, expectation(pos, junk, m), mutate(doc, pos['path'], junk)))
+    for level in range(1, depth + 1):
+        here = [x for x in ps if len(x['frames']) == level]
+        # the required int field of the class at this level, then other positions at this level
+        direct = [x for x in here if x['frames'][-1][1] == 'alpha' and x['path'] == frame_path(ps, x)]
+        for pos in direct[:2]:
+            junk_at(pos, ['S', 'junk'])
+            junk_at(pos, ['L', [['I', '1']]])
+        others = [x for x in here if x not in direct]
+        for pos in r.sample(others, min(len(others), 2 if ctx.tier == 'quick' else 5)):
+            for junk in r.sample(JUNK, 2):
+                junk_at(pos, junk)
+    for pos in ps:
+        t = strip_opt(pos['ty'])
+        cur = node_at(doc, pos['path'])
+        if t['k'] != 'data' or cur[0] != 'D':
+            continue
+        if pos['path']:          # dataclass-typed positions: null, non-dict values, a dict that is no document of the class
+            for junk in (['N'], ['L', []], ['S', 'junk'], ['D', None, []]):
+                junk_at(pos, junk)
+        cd = m['classes'][t['c']]
+        for i, (kk, _) in enumerate(cur[2]):
+            if kk == ['S', 'alpha']:
+                e = {'kinds': ['M'], 'cls': cd['name'], 'names': ['alpha']}
+                if pos.get('f50'):
+                    e['region'] = 'F50'
+                plan.append(('delete', pos, 'alpha', e, edit_keys(doc, pos['path'], lambda kvs, i=i: kvs.__delitem__(i))))
+    return {'doc': doc, 'ps': ps, 'alone': alone, 'other_doc': odoc, 'plan': plan}
+
+
+def hist_prefixes(ctx, hmod, r):
+    """systematic prefixes: each nested class (not loaded | alone by the default engine, good / failing document |
+    bound to v1 and loaded alone | given a non-v1 Meta of its own) x the other root (not used | v1 recursive | v1
+    recursive=False | default engine), in both orders; plus the root itself used early"""
+    quick = ctx.tier == 'quick'
+    nested, other = hmod['nested'], hmod['other']
+    per_class = [None, ('alone', 'dflt', 'good'), ('alone', 'v1', 'good'), ('alone', 'dflt', 'bad'), ('alone', 'v1', 'bad'),
+                 ('meta', {'v1': False, 'recursive': True})]
+    others = [None, ('other', V1R), ('other', V1N), ('other', None)]
+    combos = [[]]
+    for c in reversed(nested):            # innermost first
+        combos = [cb + ([(c,) + pc] if pc else []) for cb in combos for pc in per_class]
+    out = []
+    for cb in combos:
+        for o in others:
+            ops = cb + ([o] if o else [])
+            out.append(ops)
+            if len(ops) >= 2 and (not quick or r.random() < 0.34):
+                out.append(list(reversed(ops)))
+    for rec in (True, False):
+        out.append([('root-early', {'v1': True, 'recursive': rec})])
+        if nested:
+            out.append([('root-early', {'v1': True, 'recursive': rec}), (nested[-1], 'alone', 'dflt', 'good')])
+    out.append([('root-early', None)])        # the root compiled by the DEFAULT engine before it is bound to v1
+    cap = 60 if quick else 100
+    if len(out) > cap:
+        keep = [x for x in out if len(x) <= 1]
+        rest = [x for x in out if len(x) > 1]
+        out = keep + r.sample(rest, cap - len(keep))
+    return out
+
+
+def hist_ops(hmod, hp, prefix, rec, docs):
+    """concrete operations of one history"""
+    ops = []
+    for item in prefix:
+        if item[0] == 'root-early':
+            if item[1]:
+                ops.append(['bind', 0, item[1]])
+            ops.append(['load', 0, hp['doc']])
+        elif item[0] == 'other':
+            if item[1]:
+                ops.append(['bind', hmod['other'], item[1]])
+            ops.append(['load', hmod['other'], hp['other_doc']])
+        elif item[1] == 'meta':
+            ops.append(['bind', item[0], item[2]])
+        else:
+            c, _, eng, which = item
+            if eng == 'v1':
+                ops.append(['bind', c, V1R])
+            ops.append(['load', c, hp['alone'][c][which]])
+    ops.append(['bind', 0, {'v1': True, 'recursive': rec}])
+    first = len(ops)
+    for d in docs:
+        ops.append(['load', 0, d])
+    return ops, first
+
+
+def prefix_label(prefix, hmod):
+    def one(item):
+        if item[0] in ('root-early', 'other'):
+            return '%s:%s' % (item[0], 'dflt' if not item[1] else 'v1' + ('r' if item[1]['recursive'] else 'n'))
+        lvl = 'L%d' % (hmod['nested'].index(item[0]) + 2)
+        return '%s:%s' % (lvl, 'meta-nonv1' if item[1] == 'meta' else '%s-%s' % (item[2], item[3]))
+    return '+'.join(one(x) for x in prefix) or 'none'
+
+
+def coq_op(op):
+    if op[0] == 'bind':
+        return 'OBind %d {| m_v1 := %s; m_rec := %s |}' % (op[1], 'true' if op[2]['v1'] else 'false',
+                                                         'true' if op[2]['recursive'] else 'false')
+    return 'OLoad %d %s' % (op[1], G.coq_pv(op[2]))
+
+
+def outcome_key(o):
+    """what the pristine comparison compares (never messages / addresses)"""
+    if 'ok' in o:
+        return ['ok', G.norm(o['ok'])]
+    return ['err', o.get('err'), bool(o.get('lib')), bool(o.get('renders')), o.get('kind'), o.get('cls'), o.get('fld'),
+            sorted(o.get('names') or []) if isinstance(o.get('names'), list) else o.get('names'),
+            G.norm(o['obj']) if isinstance(o.get('obj'), list) and o['obj'] and o['obj'][0] != 'X' else None]
+
+
+def hist_check(ctx, m, ps, entry, out, ref, engine):
+    """direct predicates on one final load after a history; -> (problem or None, region or None)"""
+    kind, pos, what, exp, d = entry
+    if engine != 'v1':
+        return None, None            # executed by a default-engine function (root compiled before it was bound to v1)
+    if ref is not None and 'build_err' not in ref and outcome_key(out) != outcome_key(ref):
+        return ('the history changes the outcome of a v1 load: after the history %s, in a pristine interpreter %s' %
+                (brief(out), brief(ref))), None
+    if 'ok' in out:
+        return None, None
+    bad = check_error(out, exp)
+    if not bad and exp and not exp.get('region') and kind == 'junk' and out.get('kind') == 'P' and pos['frames'] \
+            and pos['path'] == frame_path(ps, pos) and isinstance(out.get('obj'), list):
+        if G.norm(out['obj']) != G.norm(what):
+            bad = 'ParseError.obj is %s, the offending value is %s' % (json.dumps(out['obj'])[:80], json.dumps(what)[:80])
+    if bad:
+        return bad, excused(ctx, out, exp, dc_shape(data(0), d, m), m)
+    return None, None
+
+
+def brief(o):
+    if 'ok' in o:
+        return 'loads'
+    return '%s(class %r, field %r, obj %s)' % (o.get('err'), o.get('cls'), o.get('fld'), json.dumps(o.get('obj'))[:60])
+
+
+def run_histories(ctx):
+    import concurrent.futures as cf
+    quick = ctx.tier == 'quick'
+    hmods = build_hist_models(ctx)
+    r = ctx.sub_rng('hist')
+    work = []
+    for hmod in hmods:
+        hp = hist_plan(ctx, hmod, r)
+        if hp is None:
+            ctx.broken_tie('harness could not generate a history model document', {'model': hmod['mb'].mi})
+            continue
+        docs = [e[4] for e in hp['plan']]
+        hists = []
+        for prefix in hist_prefixes(ctx, hmod, r):
+            for rec in (True, False):
+                ops, first = hist_ops(hmod, hp, prefix, rec, docs)
+                hists.append({'prefix': prefix, 'rec': rec, 'ops': ops, 'first': first})
+        work.append((hmod, hp, hists))
+
+    def call(args):
+        hmod, hp, hists = args
+        m = hmod['mb'].m
+        docs = [e[4] for e in hp['plan']]
+        pr = ctx.impl('c14x', {'items': [{'model': m, 'oracle': False, 'histories': [
+            {'ops': hist_ops(hmod, hp, [], rec, docs)[0], 'suffix': '_p%d' % i} for i, rec in enumerate((True, False))]}]}, timeout=900)
+        hs = ctx.impl('c14x', {'items': [{'model': m, 'oracle': True,
+                                          'histories': [{'ops': h['ops']} for h in hists]}]}, timeout=900)
+        return pr['items'][0], hs['items'][0]
+    with cf.ThreadPoolExecutor(max_workers=4) as ex:
+        results = list(ex.map(call, work))
+
+    # ---- model side: the history machine of V1ErrHist.v on every history (on the first 5 / 6 documents of every history)
+    mres, model_ok = {}, True
+    try:
+        shards, index = [], []
+        for wi, ((hmod, hp, hists), (pr, hs)) in enumerate(zip(work, results)):
+            m = hmod['mb'].m
+            if hs.get('setup_err'):
+                continue
+            pre = 'Definition ct : ctable := %s.\nDefinition tb : list oentry := %s.' % (
+                G.coq_ct(m, hs['keys']), G.coq_oracle([(l, o, v, a) for l, o, v, a in hs['oracle']]))
+            exs = []
+            for h in hists:
+                k = h['first'] + (5 if quick else 6)
+                exs.append('case_hist tb ct %d [%s]' % (C2.BUDGET, '; '.join(coq_op(op) for op in h['ops'][:k])))
+            SH = 24
+            for i in range(0, len(exs), SH):
+                shards.append((pre, exs[i:i + SH]))
+                index.append([(wi, hi) for hi in range(i, min(i + SH, len(exs)))])
+        outs = G.coq_shards(os.path.join(ctx.workdir, 'hist_cases'), HIST_IMPORTS, shards, jobs=8 if quick else 10, timeout=900)
+        for idx, out in zip(index, outs):
+            for (wi, hi), o in zip(idx, out):
+                mres[(wi, hi)] = o.split('#')
+    except Exception as e:
+        model_ok = False
+        ctx.broken_tie('history model evaluation failed: %s' % str(e)[:800])
+
+    n_dis = 0
+    n_vio = [0]
+
+    def violation(what, rp):
+        # one defect shows on hundreds of (history, document) pairs: keep the first few replays
+        n_vio[0] += 1
+        if n_vio[0] <= 6:
+            ctx.violation(what, rp)
+        else:
+            ctx.hist('hist_further_violations', 'not written')
+    for wi, ((hmod, hp, hists), (pr, hs)) in enumerate(zip(work, results)):
+        m, ps, plan = hmod['mb'].m, hp['ps'], hp['plan']
+        if pr.get('setup_err') or hs.get('setup_err'):
+            ctx.broken_tie('harness could not set up history model %d' % wi, pr.get('setup_err') or hs.get('setup_err'))
+            continue
+        for l, o, v, a in hs['oracle']:
+            if 'err' in a and a['err'] in ('ParseError', 'MissingFields', 'MissingData', 'UnknownKeysError'):
+                ctx.broken_tie('oracle hypothesis violated: leaf loader %s raised a library error' % l, {'value': v, 'answer': a})
+        ctx.hist('hist_depth', hmod['depth'])
+        for k in m.get('hist_pos') or ['-']:
+            ctx.hist('hist_position', k)
+        # pristine references, and the direct predicates on them as well (prefix 'none')
+        refs = {}
+        for i, rec in enumerate((True, False)):
+            pro = pr['histories'][i]
+            if pro.get('setup_err'):
+                ctx.broken_tie('harness could not set up the pristine reference', pro['setup_err'])
+                continue
+            refs[rec] = pro['ops'][1:]
+        for hi, h in enumerate(hists):
+            res = hs['histories'][hi]
+            label = prefix_label(h['prefix'], hmod)
+            if res.get('setup_err'):
+                ctx.broken_tie('harness could not set up a history', res['setup_err'])
+                continue
+            ctx.hist('hist_prefix_len', len(h['prefix']))
+            for item in h['prefix']:
+                ctx.hist('hist_prefix_op', prefix_label([item], hmod))
+            ops_out = res['ops']
+            mod_out = mres.get((wi, hi)) if model_ok else None
+            for oi, (op, out) in enumerate(zip(h['ops'], ops_out)):
+                if op[0] != 'load':
+                    continue
+                if 'build_err' in out or 'op_err' in out:
+                    ctx.broken_tie('harness could not run a history operation', out)
+                    continue
+                final = oi >= h['first']
+                rp = {'kind': 'hist', 'model': {k: v for k, v in m.items() if k not in ('docs', 'instances')},
+                      'ops': h['ops'][:h['first']] + [op] if final else h['ops'][:oi + 1], 'rec': h['rec'],
+                      'expect': plan[oi - h['first']][3] if final else None,
+                      'what': 'after history [%s], recursive=%s: %s' % (label, h['rec'], (
+                          '%s %s at %s' % (plan[oi - h['first']][0], json.dumps(plan[oi - h['first']][2])[:60],
+                                           json.dumps(plan[oi - h['first']][1]['path'])) if final else 'stand-alone load'))}
+                if final:
+                    entry = plan[oi - h['first']]
+                    ctx.count(1, key='h:%d|%s|%s|%d' % (wi, label, h['rec'], oi - h['first']), nontrivial=len(h['prefix']) > 0 and entry[1]['depth'] >= 2)
+                    ref = (refs.get(h['rec']) or [None] * len(plan))[oi - h['first']]
+                    bad, reg = hist_check(ctx, m, ps, entry, out, ref, out.get('engine'))
+                    ctx.hist('hist_outcome', 'loads' if 'ok' in out else out.get('err') if out.get('engine') == 'v1' else 'default-engine')
+                    if bad and reg:
+                        ctx.hist('known_region', reg)
+                    elif bad:
+                        violation('%s (%s)' % (bad, rp['what']), rp)
+                elif out.get('engine') == 'v1' and 'err' in out and not (out.get('lib') and out.get('renders')):
+                    ctx.count(1, key='hp:%d|%s|%d' % (wi, label, oi), nontrivial=False)
+                    violation('%s (%s)' % (check_error(out, None), rp['what']), rp)
+                # ---- correspondence: engine and, for v1-compiled functions, the outcome
+                if mod_out is not None and oi < len(mod_out):
+                    tok = mod_out[oi]
+                    ctx.traces_validated += 1
+                    meng = 'v1' if tok.startswith('v1 ') else 'dflt' if tok == 'dflt' else tok
+                    same = meng == out.get('engine')
+                    if same and meng == 'v1':
+                        mr = G.parse_res(tok[3:], m)
+                        if 'marker' in mr:
+                            ctx.broken_tie('history model: budget / oracle table exhausted', {'op': op, 'model': mr})
+                            continue
+                        same = C2.same_outcome(mr, out)
+                    if not same:
+                        n_dis += 1
+                        ctx.disagreements_checked += 1
+                        if n_dis <= 5:
+                            ctx.broken_tie('history model (V1ErrHist) and implementation disagree',
+                                           {'history': label, 'recursive': h['rec'], 'op': oi, 'model': tok[:300],
+                                            'impl': {k: v for k, v in out.items() if k not in ('msg', 'mro')}, 'doc': op[2]})
+        if wi == 0 and hists:
+            ctx.sample({'history_model': [(c['name'], [(f['name'], G.py_ann(f['ty'], m)) for f in c['fields']]) for c in m['classes']],
+                        'histories': len(hists), 'documents_per_history': len(plan),
+                        'example_prefix': prefix_label(hists[min(7, len(hists) - 1)]['prefix'], hmod)})
+
+
+def replay_hist(ctx, obj, quiet=False):
+    m = obj['model']
+    ops = obj['ops']
+    last = ops[-1]
+    pr_ops = [['bind', last[1], {'v1': True, 'recursive': obj.get('rec', True)}], last] if last[1] == 0 else None
+    items = [{'model': m, 'oracle': False, 'histories': [{'ops': ops}]}]
+    res = ctx.impl('c14x', {'items': items})['items'][0]
+    out = (res.get('histories') or [{}])[0]
+    if res.get('setup_err') or out.get('setup_err') or not out.get('ops'):
+        if not quiet:
+            print('setup error: %s' % (res.get('setup_err') or out.get('setup_err')))
+        return False
+    o = out['ops'][-1]
+    ok, msgs = True, []
+    if o.get('engine') == 'v1':
+        if pr_ops:
+            ref = ctx.impl('c14x', {'items': [{'model': m, 'oracle': False, 'histories': [{'ops': pr_ops, 'suffix': '_p'}]}]})['items'][0]['histories'][0]['ops'][-1]
+            if outcome_key(ref) != outcome_key(o):
+                ok = False
+                msgs.append('after the history %s, in a pristine interpreter %s' % (brief(o), brief(ref)))
+        if 'err' in o:
+            bad = check_error(o, obj.get('expect'))
+            reg = bad and last[1] == 0 and excused(ctx, o, obj.get('expect'), dc_shape(data(0), last[2], m), m)
+            if bad and reg:
+                msgs.append('%s — inside the listed open region %s' % (bad, REGION_ID[reg]))
+            elif bad:
+                ok = False
+                msgs.append(bad)
+    if not quiet:
+        print('%s: %s' % (obj.get('what', 'history'), '; '.join(msgs) or ('%s as in the pristine interpreter' % brief(o))))
+    return ok
+
+
 def replay(ctx, obj, quiet=False):
+    if obj.get('kind') == 'hist':
+        return replay_hist(ctx, obj, quiet)
     if obj.get('kind') != 'doc':
         print('replay object names a broken tie, not an input: %s' % json.dumps(obj)[:1500])
         return False
